@@ -170,6 +170,17 @@ class C03(Check):
                 rt_roots.append(res["direct"])
             if ok:
                 orig = {}
+                # a client that sorted / filtered the attribute lists it got from the models in place, before the models are
+                # rendered back: the models are values, they still mirror the source
+                from ..worlds.realcanon import hostile_client
+                out.stats["client_list_mutations"] += hostile_client([t for types in rt_roots for t in types])
+                m3 = realcanon.Matcher(uni.res)
+                for types in rt_roots:
+                    for t in types:
+                        if str(t) in uni.defs:
+                            m3.message(str(t), str(t), t, docs=True)
+                if m3.bad:
+                    out.fail("C03.mirror", "after a client modified the lists returned by the model's accessors in place: %s" % "; ".join(m3.bad[:3]), "mirror:client-mutation")
                 for ri, types in enumerate(rt_roots):
                     c = realcanon.Canon(w.scratch)
                     for t in types:
